@@ -212,6 +212,30 @@ def run(chk, ctx) -> None:
                    got=[(T.show(c) if c else 'always', T.show(v)) for c, v in got], want=CONVENTIONS[ci.name])
         else:
             chk.note(f'site parser {ci.name} has no convention in the table (not checked)')
+    from .c20_samples import SAMPLES
+    n_s = 0
+    for cname, pats in SAMPLES.items():
+        if cname not in prog.classes:
+            continue
+        for attr, samples in pats.items():
+            rx, raw = pattern_of(sev, cname, attr)
+            if rx is None:
+                continue
+            bad = []
+            for line, want in samples:
+                n_s += 1
+                try:
+                    m = re.search(rx, line)
+                except re.error:
+                    m = None
+                if m is None:
+                    bad.append(f'no match: {line!r}')
+                elif want is not None and {k: m[k] for k in want if k in m.groupdict()} != want:
+                    bad.append(f'{line!r} -> { {k: m[k] for k in want if k in m.groupdict()} }')
+            chk.ob('C20.samples', f'{cname}.{attr}', not bad, prog.cls(cname).loc,
+                   "the pattern (evaluated as a declaration with `re`) matches the site's line format and captures the player / amount / cards the driver reads",
+                   got=bad[:2] or f'{len(samples)} sample line(s)')
+    chk.floor('C20.samples', 55)
     chk.floor('C20.patterns', 6 * 13)
     chk.floor('C20.conventions', 6)
     chk.floor('C20.variants', 6)
